@@ -135,6 +135,11 @@ pub open spec fn compat_post(value: CharacterData, spec: CharacterDataSpec, targ
         _ => r == (true, u32::MAX),
     }
 }
+// a value that is valid for the spec in the target version is never reported incompatible (first clause of unit compatwalk's leaf)
+pub proof fn lemma_valid_implies_compatible(value: CharacterData, spec: CharacterDataSpec, target: u32, r: (bool, u32))
+    requires compat_post(value, spec, target, r), valid(value, spec, target)
+    ensures r.0
+{}
 // the clause unit compatwalk states on its leaf declaration: when an enumeration value is held wherever one is expected, the returned mask
 // contains the target exactly when the value is compatible
 pub proof fn lemma_compat_iff(value: CharacterData, spec: CharacterDataSpec, target: u32, r: (bool, u32))
